@@ -250,6 +250,15 @@ def run(sim):
         prod.sync_end = None
         if nsync == len(body_pieces) and end in ("finish", "fail", "short", "excess") and sim.draw_bool(0.5, "sync_end"):
             prod.sync_end = "fail" if end == "fail" else "finish"
+    # The application's own header set may name a framing header.  Only the combination the statement decides is generated:
+    # a body of unknown length (must be sent with chunked coding, whatever Content-Length the application mentions;
+    # Transfer-Encoding overrides Content-Length for every RFC 9112 recipient).  A Content-Length that contradicts a
+    # known-length producer, or one on a request without a body, is the caller's own inconsistency: not generated.
+    app_cl = None
+    if kind == "unknown" and sim.draw_bool(0.15, "app_content_length"):
+        app_cl = b"%d" % sim.draw_choice([0, 1, 5, 1000], "app_cl")
+        headers.insert(sim.draw_int(0, len(headers), "app_cl_pos"), (sim.draw_choice([b"Content-Length", b"content-length"], "app_cl_name"), app_cl))
+        sim.probe("application_supplied_content_length")
     sim.config = {"method_valid": mvalid, "target_valid": tvalid, "body": kind, "end": end, "hwm": hwm, "persistent": persistent,
                   "npieces": len(body_pieces), "empty_pieces": sum(1 for p in body_pieces if not p)}
     sim.event("request", method, target, kind, end, "hwm=%s" % hwm, "late" if late_corrupt else "ctor")
@@ -311,12 +320,15 @@ def run(sim):
         framing = [(n, v) for n, v in got if n in (b"content-length", b"transfer-encoding")]
         conn = [(n, v) for n, v in got if n == b"connection"]
         rest = sorted((n, v) for n, v in got if n not in (b"content-length", b"transfer-encoding", b"connection"))
-        want = sorted([(b"host", b"sim.example")] + [(n.lower(), strip_ows(v)) for n, v in headers])
+        want = sorted([(b"host", b"sim.example")] + [(n.lower(), strip_ows(v)) for n, v in headers if n.lower() != b"content-length"])
         sim.check("headers-equal", rest == want, "head", lambda: "parsed %r intended %r" % (rest, want))
         if kind == "known":
             sim.check("framing", framing == [(b"content-length", b"%d" % prod.length)], "known-length", "framing headers %r length %r" % (framing, prod.length))
         elif kind == "unknown":
-            sim.check("framing", framing == [(b"transfer-encoding", b"chunked")], "unknown-length", "framing headers %r" % (framing,))
+            # the application's own Content-Length, if any, may be passed on or dropped (no verdict); chunked coding must be announced
+            others = [f for f in framing if f != (b"transfer-encoding", b"chunked")]
+            sim.check("framing", (b"transfer-encoding", b"chunked") in framing and all(f == (b"content-length", app_cl) for f in others),
+                      "unknown-length", "framing headers %r" % (framing,))
         else:
             okf = framing == [] or (framing == [(b"content-length", b"0")])
             sim.check("framing", okf, "no-body", "framing headers %r" % (framing,))
